@@ -116,6 +116,36 @@ impl From<&V7> for NetflowCommon {
     }
 }
 
+/// Protocol number of a decoded protocol field. The V9 parser decodes PROTOCOL into
+/// `FieldValue::ProtocolType`; hand-built structures may carry a plain number.
+fn protocol_number(value: &FieldValue) -> Option<u8> {
+    match value {
+        FieldValue::ProtocolType(ProtocolTypes::Unknown) => None,
+        FieldValue::ProtocolType(protocol) => Some(u8::from(*protocol)),
+        other => other.try_into().ok(),
+    }
+}
+
+/// Protocol name of a decoded protocol field.
+fn protocol_type(value: &FieldValue) -> Option<ProtocolTypes> {
+    match value {
+        FieldValue::ProtocolType(protocol) => Some(*protocol),
+        other => other
+            .try_into()
+            .ok()
+            .map(|proto: u8| ProtocolTypes::from(proto)),
+    }
+}
+
+/// FIRST_SWITCHED / LAST_SWITCHED are sysUpTime milliseconds; the V9 parser decodes them into
+/// `FieldValue::Duration`, hand-built structures may carry a plain number.
+fn sys_up_time_millis(value: &FieldValue) -> Option<u32> {
+    match value {
+        FieldValue::Duration(duration) => u32::try_from(duration.as_millis()).ok(),
+        other => other.try_into().ok(),
+    }
+}
+
 impl From<&V9> for NetflowCommon {
     fn from(value: &V9) -> Self {
         // Convert V9 to NetflowCommon
@@ -143,18 +173,16 @@ impl From<&V9> for NetflowCommon {
                             .and_then(|v| v.try_into().ok()),
                         protocol_number: value_map
                             .get(&V9Field::Protocol)
-                            .and_then(|v| v.try_into().ok()),
-                        protocol_type: value_map.get(&V9Field::Protocol).and_then(|v| {
-                            v.try_into()
-                                .ok()
-                                .map(|proto: u8| ProtocolTypes::from(proto))
-                        }),
+                            .and_then(protocol_number),
+                        protocol_type: value_map
+                            .get(&V9Field::Protocol)
+                            .and_then(protocol_type),
                         first_seen: value_map
                             .get(&V9Field::FirstSwitched)
-                            .and_then(|v| v.try_into().ok()),
+                            .and_then(sys_up_time_millis),
                         last_seen: value_map
                             .get(&V9Field::LastSwitched)
-                            .and_then(|v| v.try_into().ok()),
+                            .and_then(sys_up_time_millis),
                         src_mac: value_map
                             .get(&V9Field::InSrcMac)
                             .and_then(|v| v.try_into().ok()),
